@@ -392,7 +392,15 @@ def classify(c, o, as_modelled: bool):
         return "ipc_uniform", dict(kind=k), None
     if k == "cdm":
         if "nonfinite" in o:
-            return "cdm_nonfinite", dict(kind=k, corner=c.get("corner", "none")), None
+            # classify by the actual parameter values, not by the generator's label (t = 0 can also be drawn
+            # independently of the corner branch)
+            if c.get("vg") == 0 and c.get("t") == 0:
+                corner = "vg=0,t=0"
+            elif c.get("fwc") == 0 and c.get("beta", 0) > 0:
+                corner = "fwc=0"
+            else:
+                corner = c.get("corner", "none")
+            return "cdm_nonfinite", dict(kind=k, corner=corner), None
         return "cdm_bounds", dict(kind=k, direction=c["direction"]), None
     # persistence: find the first (step, pixel) that breaks the account
     npx, n = len(c["pix0"]), len(c["taus"])
